@@ -8,7 +8,7 @@ from ..absval import Obj, Sym
 from ..model import AnchorMissing, Undecided, norm
 from ..report import Ctx
 from ..variants import Variant
-from .aggrun import GROUPS, KEYS, agg_class, call, evaluate_subject, header_row, new_session
+from .aggrun import GROUPS, KEYS, agg_class, agg_paths, call, evaluate_subject, header_row, new_session
 from .fsrun import FS, PathV
 
 INFO = {
@@ -69,10 +69,9 @@ def check_constructor_states(ctx: Ctx):
                 # stale claim file of a killed session sits at the buffer path the constructor uses
                 fs2 = FS({k: v for k, v in files.items() if k != "STALE"})
                 a0, o0, i0 = new_session(prog, fs2, arg)
-                buf = a0.attrs.get("_Panoptica_Aggregator__output_buffer_file") if a0 else None
-                if buf is None:
+                bpath = agg_paths(a0)[1] if a0 else None
+                if bpath is None:
                     continue
-                bpath = buf.s if isinstance(buf, PathV) else str(buf)
                 files2 = {k: v for k, v in files.items() if k != "STALE"}
                 files2[bpath] = files["STALE"]
                 fs = FS(files2)
@@ -91,12 +90,10 @@ def check_constructor_states(ctx: Ctx):
             # no stray file at the un-normalised path
             stray = [p for p in fs.files if p not in (canon,) and not p.endswith("_tmp.tsv") and "tmp" not in p]
             ctx.decide("R17.3", init, init.node, construct + ":canonical-path", "only the canonical output path (with .tsv) and the claim file are touched", not stray, {"stray": stray})
-            buf = agg.attrs.get("_Panoptica_Aggregator__output_buffer_file")
-            bpath = buf.s if isinstance(buf, PathV) else buf
+            bpath = agg_paths(agg)[1]
             claims = [r[0] for r in fs.files.get(bpath, [["<missing>"]])]
             ctx.decide("R17.7", init, init.node, construct + ":claims", "claims are rebuilt from exactly the finished subjects (header cell and stale claims excluded)", claims == finished, {"claims": claims, "finished": finished})
-            outp = agg.attrs.get("_Panoptica_Aggregator__output_file")
-            outs = outp.s if isinstance(outp, PathV) else outp
+            outp = outs = agg_paths(agg)[0]
             ctx.decide("R17.3", init, init.node, construct + ":rows-path", "rows will be written to the canonical output path", outs == canon, {"output_file": repr(outp)}, nontrivial=False)
     check_header_rejection(ctx)
     if n < 16:
@@ -247,7 +244,7 @@ def check_neighbours(ctx: Ctx):
     prog = ctx.prog
     header = header_row()
     ev = agg_class(prog).lookup("evaluate")
-    for nm, pa, pb in (("a/b", "/d/a.tsv", "/d/b.tsv"), ("two-dot siblings", "/d/scores.v1.tsv", "/d/scores.v2.tsv"), ("prefix", "/d/run.tsv", "/d/run_panoptica_aggregator_tmp.tsv"[:-4] + "x.tsv")):
+    for nm, pa, pb in (("a/b", "/d/a.tsv", "/d/b.tsv"), ("two-dot siblings", "/d/scores.v1.tsv", "/d/scores.v2.tsv"), ("prefix", "/d/run.tsv", "/d/run_panoptica_aggregator_tmp.tsv"[:-4] + "x.tsv"), ("singular/plural", "/d/result.tsv", "/d/results.tsv"), ("one more letter of the extension", "/d/stat.tsv", "/d/statt.tsv"), ("upper/lower case", "/d/Run.tsv", "/d/run.tsv")):
         fs = FS()
         A, oa, ia = new_session(prog, fs, pa)
         B, ob, ib = new_session(prog, fs, pb)
@@ -255,9 +252,7 @@ def check_neighbours(ctx: Ctx):
         if A is None or B is None:
             ctx.violated("R17.1", ev, None, base, "two aggregators on sibling output files cannot be constructed")
             continue
-        ba, bb = A.attrs.get("_Panoptica_Aggregator__output_buffer_file"), B.attrs.get("_Panoptica_Aggregator__output_buffer_file")
-        sa = ba.s if isinstance(ba, PathV) else ba
-        sb = bb.s if isinstance(bb, PathV) else bb
+        sa, sb = agg_paths(A)[1], agg_paths(B)[1]
         ctx.decide("R17.1", ev, ev.node, base + ":claim-files", "aggregators writing to different output files use different claim files", sa != sb and sa not in (pa, pb) and sb not in (pa, pb), {"A": sa, "B": sb})
         lo = ia.root.lock_objs
         bad = None
